@@ -4,6 +4,10 @@
   (`lock`, `unlock`, `chk`, the hooked `sync.poison.failed` loads and stores) are steps of `Panic.ltstep`; whether
   an actor is unwinding / cancelled is read from the Scope state. Guards dropped by a cancellation unwind emit no
   event (`Flag::done` does not store): they are released when the actor's finishing code shows up.
+  The drop of a guard by an unwind is two steps of the lock system (`poison.done`, then the release). The families
+  `panic` / `panicscope` do not record the lock words (sync/mutex.rs is not in their filter), so `machine` takes the
+  second half right after the first; `handMachine` (family `panichand`, contended locks) ties the second half to the
+  holder's release of the lock word (`cnt.fetch_sub`) and so checks the order of the two halves on every run.
 -/
 import MayVerif.Core.Trace
 import MayVerif.Model.ScopeReplay
@@ -30,11 +34,17 @@ def pastBody (p : PSt) (u : Nat) : Bool :=
   | .pend => p.sc.st.sh.unw u == .cancel
   | _ => false
 
+/-- second half of a guard drop by an unwind -/
+def finishDrop (l : Panic.LSt) (u : Nat) : Panic.LSt :=
+  match l.pcs u with
+  | .d1 _ _ => (Panic.lstep l u true .go).getD l
+  | _ => l
+
 def unwindAll (fuel : Nat) (l : Panic.LSt) (u : Nat) (ic : Bool) : Panic.LSt :=
   match fuel with
   | 0 => l
   | k + 1 => match Panic.lstep l u true (.unwind ic) with
-    | some l' => unwindAll k l' u ic
+    | some l' => unwindAll k (finishDrop l' u) u ic
     | none => l
 
 /-- silent guard drops of actors whose unwinding is over -/
@@ -71,6 +81,7 @@ def lockCands (p : PSt) (t : Nat) (ev : Event) : List (Label × PSt × String) :
     | .l1 m | .k1 m =>
       stepTo .go tp { obj := "sync.poison.failed", inst := poiI m, op := "load", res := .num (b2i (p.lk.sh.poi m)), ord := "Relaxed" }
         (match lpc with | .l1 _ => "borrow" | _ => "get") id
+    | .r1 _ | .d1 _ _ => []
     | .free =>
       -- a guard dropped by the unwinding of a panic: `Flag::done` stores iff the panic began inside the guard and the
       -- coroutine is not cancelled
@@ -78,7 +89,8 @@ def lockCands (p : PSt) (t : Nat) (ev : Event) : List (Label × PSt × String) :
       | .pend, .pan _, some m =>
         let ic := s.sh.canc t
         if Panic.flagDone (p.lk.sh.gp m) true ic then
-          stepTo (.unwind ic) true { obj := "sync.poison.failed", inst := poiI m, op := "store", a1 := .num 1, ord := "Relaxed" } "done/poison" id
+          stepTo (.unwind ic) true { obj := "sync.poison.failed", inst := poiI m, op := "store", a1 := .num 1, ord := "Relaxed" } "done/poison"
+            (fun q => { q with lk := finishDrop q.lk t })
         else []
       | _, _, _ => []
 
@@ -90,9 +102,14 @@ def compactL (bound nact : Nat) (l : Panic.LSt) : Panic.LSt :=
   let a_hl := Scope.mk nact sh.hl
   let a_gp := Scope.mk bound sh.gp
   let a_pin := Scope.mk bound sh.pin
+  let a_rel := Scope.mk bound sh.rel
+  let a_ca := Scope.mk bound sh.cleanAfter
+  let a_rd := Scope.mk bound sh.rd
+  let a_rl := Scope.mk nact sh.rl
   { l with pcs := Scope.tabA a_pcs l.pcs,
            sh := { sh with held := Scope.tabA a_held sh.held, poi := Scope.tabA a_poi sh.poi, hl := Scope.tabA a_hl sh.hl,
-                           gp := Scope.tabA a_gp sh.gp, pin := Scope.tabA a_pin sh.pin } }
+                           gp := Scope.tabA a_gp sh.gp, pin := Scope.tabA a_pin sh.pin, rel := Scope.tabA a_rel sh.rel,
+                           cleanAfter := Scope.tabA a_ca sh.cleanAfter, rd := Scope.tabA a_rd sh.rd, rl := Scope.tabA a_rl sh.rl } }
 
 def lift (p : PSt) (cs : List (Label × Scope.RSt × String)) : List (Label × PSt × String) :=
   cs.map fun (l, r, nm) => (l, { p with sc := r }, nm)
@@ -121,8 +138,12 @@ def machine : Machine where
           | some u => !(l.hl u).contains m
           | none => (List.range p.sc.st.n).any (fun u => (l.hl u).contains m)) with
       | some m => some s!"lock {m}: holder and guard lists disagree"
-      | none => none
-  where_ := fun p t => Scope.machine.where_ p.sc t ++ (match p.lk.pcs t with | .free => "" | .l1 _ => " +l1" | .k1 _ => " +k1")
+      | none =>
+        -- executable form of `poison_visible_to_next_holder`
+        match (List.range (2 * p.sc.st.n + 2)).find? (fun m => l.cleanAfter m || (l.rel m && !l.poi m)) with
+        | some m => some s!"lock {m}: released by a holder that panicked inside its guard, but not poisoned for the next one"
+        | none => none
+  where_ := fun p t => Scope.machine.where_ p.sc t ++ (match p.lk.pcs t with | .free => "" | .l1 _ => " +l1" | .k1 _ => " +k1" | .r1 _ => " +r1" | .d1 _ _ => " +d1")
   atEnd := fun p =>
     match Scope.machine.atEnd p.sc with
     | some m => some m
@@ -146,5 +167,129 @@ def oracleOnly : Machine where
   where_ := fun _ _ => "-"
   atEnd := fun _ => none
   skip := fun _ => true
+
+/-! ### family `panichand`: a holder that panics inside its guard, waiters queued or arriving -/
+
+structure HSt where
+  n : Nat
+  rw : Bool                               -- the lock is a RwLock (its `rlock` is a Mutex of its own: not modelled here)
+  lk : Panic.LSt
+  unw : List Nat := []                    -- actors that are unwinding (`child.panic` seen)
+  last : List (Nat × Nat × Bool) := []    -- actor ↦ lock of its last `lock` / `chk` call, and what its load of the flag saw
+  age : Nat := 0
+
+def hactor (a : String) : Option Nat :=
+  if a == "main" then some 0
+  else
+    let c := Scope.coreName a
+    if c.startsWith "c:c" then (c.drop 3).toString.toNat?
+    else if c.startsWith "t" then (c.drop 1).toString.toNat?
+    else none
+
+def cntObj (h : HSt) : String := if h.rw then "sync.rwlock.cnt" else "sync.mutex.cnt"
+
+def hskip (e : Event) : Bool :=
+  e.kind == "note" ||
+  ((e.obj.startsWith "sync.mutex." || e.obj.startsWith "sync.rwlock.") && !((e.obj == "sync.mutex.cnt" || e.obj == "sync.rwlock.cnt") && e.op == "fetch_sub"))
+
+def hlastOf (h : HSt) (t : Nat) : Nat × Bool := ((h.last.find? (·.1 == t)).map (·.2)).getD (0, false)
+def hsetLast (h : HSt) (t m : Nat) (v : Bool) : HSt := { h with last := (t, m, v) :: h.last.filter (·.1 != t) }
+
+def selfLoop (h : HSt) (ev : Event) (nm : String) : List (Label × HSt × String) :=
+  [({ kind := ev.kind, obj := ev.obj, op := ev.op }, h, nm)]
+
+def hcands (h : HSt) (t : Nat) (ev : Event) : List (Label × HSt × String) :=
+  let tp : Bool := h.unw.contains t
+  let lpc := h.lk.pcs t
+  let sh := h.lk.sh
+  let stepTo (e : Panic.LEnv) (l : Label) (nm : String) (f : HSt → HSt) : List (Label × HSt × String) :=
+    match Panic.lstep h.lk t tp e with
+    | some lk' => [(l, f { h with lk := lk' }, nm)]
+    | none => []
+  if ev.kind == "call" then
+    if lpc != .free then [] else
+    match ev.op, Scope.numOf ev.a1, Scope.numOf ev.a2 with
+    | "lock", some m, some k =>
+      if tp then [] else
+      if k == 3 || k == 5 then stepTo (.rlock m) { kind := "call", op := "lock" } "read" (fun q => hsetLast q t m false)
+      else stepTo (.lock m) { kind := "call", op := "lock" } "lock" (fun q => hsetLast q t m false)
+    | "unlock", some m, _ =>
+      if tp then [] else
+      if (sh.hl t).contains m then stepTo (.unlock m) { kind := "call", op := "unlock" } "unlock/normal" id
+      else stepTo (.runlock m) { kind := "call", op := "unlock" } "unlock/read" id
+    | "chk", some m, _ => stepTo (.chk m) { kind := "call", op := "chk" } "chk" (fun q => hsetLast q t m false)
+    | "child.panic", _, _ => [({ kind := "call", op := "child.panic" }, { h with unw := t :: h.unw }, "panic")]
+    | "spawn", _, _ | "child.begin", _, _ | "child.end", _, _ => if tp then [] else selfLoop h ev ev.op
+    | _, _, _ => []
+  else if ev.kind == "ret" then
+    let (m, v) := hlastOf h t
+    let ok : Bool := lpc == .free && (match ev.a1 with | .num r => r == b2i v | _ => false) &&
+      (ev.op == "chk" || (sh.hl t).head? == some m || (sh.rl t).contains m)
+    if ok then [({ kind := "ret", op := ev.op }, h, "ret." ++ ev.op ++ (if v then "/poisoned" else "/clean"))] else []
+  else if ev.obj == "sync.poison.failed" then
+    let inner : List (Label × HSt × String) :=
+      -- the flag of the RwLock's `rlock` mutex: nobody panics while holding it
+      if h.rw then [({ obj := "sync.poison.failed", inst := some ("rlk", 0), op := "load", res := .num 0, ord := "Relaxed" }, h, "rlock/borrow")] else []
+    match lpc with
+    | .l1 m | .k1 m | .r1 m =>
+      let v := sh.poi m
+      stepTo .go { obj := "sync.poison.failed", inst := poiI m, op := "load", res := .num (b2i v), ord := "Relaxed" }
+        (match lpc with | .l1 _ => "borrow" | .r1 _ => "borrow/read" | _ => "get") (fun q => hsetLast q t m v)
+      ++ (match lpc with | .r1 _ => inner | _ => [])
+    | .d1 _ _ => []
+    | .free =>
+      match tp, (sh.hl t).head? with
+      | true, some m =>
+        if Panic.flagDone (sh.gp m) true false then
+          stepTo (.unwind false) { obj := "sync.poison.failed", inst := poiI m, op := "store", a1 := .num 1, ord := "Relaxed" } "done/poison" id
+        else []
+      | _, _ => inner
+  else if ev.op == "fetch_sub" && (ev.obj == "sync.mutex.cnt" || ev.obj == "sync.rwlock.cnt") then
+    if ev.obj != cntObj h then selfLoop h ev "rlock/release" else
+    match lpc with
+    | .d1 _ _ => stepTo .go { obj := ev.obj, op := "fetch_sub" } "drop/release" id
+    | .free =>
+      -- the release of a lock word by somebody who is not dropping a guard in an unwind: the guard was given up at
+      -- `call unlock`. An unwinding holder must have stored the flag first.
+      match tp, (sh.hl t).head? with
+      | true, some m =>
+        stepTo (.unwind false) { obj := "sync.poison.failed", inst := poiI m, op := "store", a1 := .num 1, ord := "Relaxed" } "done/poison" id
+      | _, _ => selfLoop h ev "release"
+    | _ => []
+  else []
+
+def lpcName : Panic.LPc → String
+  | .free => "free"
+  | .l1 _ => "l1 (lock/write in progress)"
+  | .k1 _ => "k1"
+  | .r1 _ => "r1 (read in progress)"
+  | .d1 _ _ => "d1 (guard drop by unwind: flag stored, lock not yet released)"
+
+def compactH (h : HSt) : HSt := { h with lk := compactL 16 (h.n + 1) h.lk, age := 0 }
+
+def handMachine : Machine where
+  St := HSt
+  init := fun hd => match hnat hd "actors", hnat hd "rw" with
+    | some n, some rw => .ok { n := n, rw := rw != 0, lk := Panic.linit }
+    | _, _ => .error "panichand scenario without actors= / rw="
+  actor := fun _ a => hactor a
+  cands := fun h t ev => (hcands h t ev).map fun (l, q, nm) => (l, (if q.age ≥ 24 then compactH q else { q with age := q.age + 1 }), nm)
+  inv := fun h =>
+    let l := h.lk.sh
+    match (List.range 16).find? (fun m => match l.held m with
+        | some u => !(l.hl u).contains m || l.rd m != 0
+        | none => (List.range (h.n + 1)).any (fun u => (l.hl u).contains m)) with
+    | some m => some s!"lock {m}: holder and guard lists disagree"
+    | none =>
+      match (List.range 16).find? (fun m => l.cleanAfter m || (l.rel m && !l.poi m)) with
+      | some m => some s!"lock {m}: released by a holder that panicked inside its guard, but not poisoned for the next one"
+      | none => none
+  where_ := fun h t => lpcName (h.lk.pcs t) ++
+    (if h.unw.contains t then " unwinding" else "") ++ (if (h.lk.sh.hl t).isEmpty then "" else " holds a guard")
+  atEnd := fun h =>
+    match (List.range (h.n + 1)).find? (fun u => !(h.lk.sh.hl u).isEmpty || !(h.lk.sh.rl u).isEmpty || h.lk.pcs u != .free) with
+    | some u => some s!"actor {u} still holds a guard or is inside a lock operation at the end of a finished run"
+    | none => none
+  skip := hskip
 
 end MayVerif.PanicR
